@@ -234,8 +234,9 @@ impl<'a> G<'a> {
     pub fn mint_assets(&mut self) -> MintAssets {
         let mut m = MintAssets::new();
         for _ in 0..self.n1(3) {
-            let q = self.r.wide_u64().max(1) >> 1; // stay inside int64
-            let q = q.max(1);
+            // mostly inside int64; now and then whatever magnitude an Int can hold (insert is the validating
+            // constructor: what it accepts has to be a mint quantity)
+            let q = if self.r.chance(1, 8) { self.r.wide_u64().max(1) } else { (self.r.wide_u64() >> 1).max(1) };
             let v = if self.r.bool() { Int::new(&BigNum::from(q)) } else { Int::new_negative(&BigNum::from(q)) };
             let _ = m.insert(&self.asset_name(), &v);
         }
